@@ -30,6 +30,7 @@ fn main() {
     let mut triage = false;
     let mut replay_tape: Option<String> = None;
     let mut stage: Option<String> = None;
+    let mut cold: Option<ppp_verif::engine::ColdChild> = None;
     let mut i = 1;
     while i < args.len() {
         match args[i].as_str() {
@@ -66,6 +67,30 @@ fn main() {
             "--stage" => {
                 i += 1;
                 stage = Some(args.get(i).cloned().unwrap_or_else(|| usage()));
+            }
+            "--cold-stage" => {
+                i += 1;
+                let st = args.get(i).cloned().unwrap_or_else(|| usage());
+                cold = Some(ppp_verif::engine::ColdChild { stage: st, index: 0, count: ppp_verif::engine::COLD_CASES, keep: None });
+                no_evidence = true;
+            }
+            "--cold-index" | "--cold-count" => {
+                let which = args[i].clone();
+                i += 1;
+                let v: u64 = args.get(i).and_then(|s| s.parse().ok()).unwrap_or_else(|| usage());
+                match cold.as_mut() {
+                    Some(c) if which == "--cold-index" => c.index = v,
+                    Some(c) => c.count = v,
+                    None => usage(),
+                }
+            }
+            "--cold-keep" => {
+                i += 1;
+                let list: Vec<u64> = args.get(i).map(|s| s.split(',').filter_map(|x| x.trim().parse().ok()).collect()).unwrap_or_else(|| usage());
+                match cold.as_mut() {
+                    Some(c) => c.keep = Some(list),
+                    None => usage(),
+                }
             }
             "--merge-evidence" => {
                 i += 1;
@@ -104,16 +129,20 @@ fn main() {
         }
     }
 
-    if let Err(e) = selftest::run() {
-        eprintln!("HARNESS-ERROR oracle self-test failed: {}", e);
-        exit(2);
+    // a cold-start child makes no call into the library before its stage: no self-test, no saved cases
+    if cold.is_none() {
+        if let Err(e) = selftest::run() {
+            eprintln!("HARNESS-ERROR oracle self-test failed: {}", e);
+            exit(2);
+        }
     }
 
     let mut r = Runner::new(prop, tier, seed, verif_dir.clone());
     r.known = load_known(&verif_dir);
-    if replay.is_none() && !triage && replay_tape.is_none() {
+    if replay.is_none() && !triage && replay_tape.is_none() && cold.is_none() {
         r.regress = ppp_verif::engine::load_regress(&verif_dir, prop);
     }
+    r.cold_child = cold.clone();
     r.triage = triage;
     if let Some(path) = &replay_tape {
         let cells: Option<Vec<u32>> = std::fs::read(path).ok().and_then(|b| {
@@ -132,6 +161,75 @@ fn main() {
             _ => {
                 eprintln!("HARNESS-ERROR --replay-tape needs a readable tape file and --stage");
                 exit(2);
+            }
+        }
+    }
+    // a saved cold-start failure is replayed by running the same positions of the same case stream in a fresh process
+    if let Some(path) = &replay {
+        let v: Option<serde_json::Value> = std::fs::read(path).ok().and_then(|t| serde_json::from_slice(&t).ok());
+        if let Some(cv) = v.as_ref().and_then(|v| v.get("cold")).filter(|c| c.is_object()) {
+            let v = v.as_ref().unwrap();
+            let exe = std::env::current_exe().unwrap();
+            let keep: Vec<String> = cv["keep"].as_array().map(|a| a.iter().filter_map(|x| x.as_u64()).map(|x| x.to_string()).collect()).unwrap_or_default();
+            let child = std::process::Command::new(exe)
+                .arg(prop)
+                .arg("--tier")
+                .arg(v["tier"].as_str().unwrap_or("quick"))
+                .arg("--cold-stage")
+                .arg(cv["stage"].as_str().unwrap_or(""))
+                .arg("--cold-index")
+                .arg(cv["index"].as_u64().unwrap_or(0).to_string())
+                .arg("--cold-count")
+                .arg(cv["count"].as_u64().unwrap_or(ppp_verif::engine::COLD_CASES).to_string())
+                .arg("--cold-keep")
+                .arg(keep.join(","))
+                .env("VERIF_SEED", (v["seed"].as_u64().unwrap_or(1) as i64).to_string())
+                .env("VERIF_WORKER", "1")
+                .stdout(std::process::Stdio::piped())
+                .stderr(std::process::Stdio::null())
+                .spawn()
+                .unwrap();
+            let t0 = std::time::Instant::now();
+            let limit = ppp_verif::engine::hang_secs();
+            let mut child = child;
+            let verdict: Result<Option<i32>, ()> = loop {
+                match child.try_wait() {
+                    Ok(Some(st)) => break Ok(st.code()),
+                    Ok(None) => {
+                        if t0.elapsed().as_secs() >= limit {
+                            let _ = child.kill();
+                            let _ = child.wait();
+                            break Ok(None);
+                        }
+                        std::thread::sleep(std::time::Duration::from_millis(20));
+                    }
+                    Err(_) => break Err(()),
+                }
+            };
+            let mut out = String::new();
+            if let Some(mut o) = child.stdout.take() {
+                use std::io::Read;
+                let _ = o.read_to_string(&mut out);
+            }
+            match verdict {
+                Ok(Some(0)) => {
+                    println!("REPLAY-PASS property={}", prop);
+                    exit(0);
+                }
+                Ok(Some(1)) | Ok(None) => {
+                    println!("VIOLATION property={} replay={}", prop, path);
+                    println!("  sig={}", v["sig"].as_str().unwrap_or(""));
+                    if let Some(l) = out.lines().rev().find(|l| l.starts_with("COLD-FAIL")) {
+                        println!("  {}", ppp_verif::imp::short(l));
+                    } else {
+                        println!("  observed: the fresh process died or gave no result again");
+                    }
+                    exit(1);
+                }
+                _ => {
+                    eprintln!("HARNESS-ERROR the cold-start replay process ended without a verdict");
+                    exit(2);
+                }
             }
         }
     }
